@@ -338,6 +338,74 @@ def boolish(flag, i):
     return (1 if flag else (0, None)[(i // 4) % 2])
 
 
+def _frames_used():
+    import sys
+    f, n = sys._getframe(), 0
+    while f is not None:
+        n += 1
+        f = f.f_back
+    return n
+
+
+def at_depth(fn, free):
+    """Call fn() from a stack that leaves about `free` Python frames below the interpreter's recursion limit."""
+    import sys
+
+    def rec(k):
+        if k <= 0:
+            return fn()
+        return rec(k - 1)
+    return rec(max(0, sys.getrecursionlimit() - _frames_used() - free - 2))
+
+
+_DEPTH = {"runaway": False}
+
+
+def depth_probe(ctx, label, fn, good, frees=None, cls="near_recursion_limit", timeout=30.0):
+    """A call with valid arguments made from deep inside the caller's stack: the only legitimate outcomes are the right result
+    and RecursionError (an honest report that the stack is exhausted).  A wrong result, another exception (a RecursionError
+    swallowed by a handler meant for something else and re-labelled) or a call that never returns is a defect.
+    good: predicate on the result.  Runs in a worker thread so that a call that does not come back is noticed."""
+    import threading
+    if _DEPTH["runaway"]:
+        ctx.count(cls + ".skipped_after_runaway")
+        return
+    frees = list(frees if frees is not None else range(4, 640, 7))
+    out = []
+
+    def work():
+        for free in frees:
+            try:
+                r = at_depth(fn, free)
+                out.append((free, "ok" if good(r) else "wrong result %r" % (r,)))
+            except RecursionError:
+                out.append((free, "RecursionError"))
+            except MemoryError:
+                out.append((free, "RecursionError"))
+            except Exception as e:
+                out.append((free, "raised %s: %s" % (type(e).__name__, str(e)[:120])))
+    t = threading.Thread(target=work, daemon=True)
+    t.start()
+    t.join(timeout)
+    if t.is_alive():
+        _DEPTH["runaway"] = True
+        nxt = frees[len(out)] if len(out) < len(frees) else None
+        ctx.violation("call_does_not_return_near_recursion_limit:" + label, "%s did not return within %.0f s when called with about %r free stack frames (it returns or raises RecursionError elsewhere)" % (label, timeout, nxt),
+                      dict(label=label, free_frames=nxt))
+        return
+    seen = set()
+    for free, o in out:
+        kind = o.split(":")[0].split(" ")[0]
+        seen.add(kind)
+        ctx.case(cls, key="%s|%s" % (label, kind), nontrivial=(o != "ok"))
+        if o not in ("ok", "RecursionError"):
+            ctx.violation("outcome_changes_near_recursion_limit:" + label, "%s called with about %d free stack frames: %s (legitimate: the right result, or RecursionError)" % (label, free, o), dict(label=label, free_frames=free))
+            break
+    ctx.count(cls + ".calls", len(out))
+    if "RecursionError" in seen and "ok" in seen:
+        ctx.count(cls + ".both_regimes_seen")
+
+
 _ISSUED = []      # (container name, object, the bytes it was made from): audited at the end of every shard
 
 
